@@ -199,6 +199,8 @@ def check(res, tier, seed):
                       no_failing_input=(monitor_hits == 0))
     from . import locksets
     locksets.atomicity_obligation(res, monitor_hits)
+    from . import regions
+    regions.obligation(res, wd, monitor_hits)
     if getattr(res, "proof_broken", None):
         why, log = res.proof_broken
         res.violation("proof-broken", "proof obligations of %s no longer check: %s" % (pid, why),
